@@ -997,6 +997,25 @@ func main() {
 
 	w("\nend Gonuts.Gen\n")
 
+	// --- translated code (Gonuts/Gen/Code.lean) ---
+	if len(os.Args) > 3 {
+		code := emitCode(
+			map[string]*pkg{"cashu": cashuP, "crypto": cryptoP, "mint": mintP, "wallet": walletP},
+			map[string]constEnv{"cashu": cashuC, "crypto": cryptoC, "mint": mintC},
+			[]trTarget{
+				{"cashu", "", "OverflowAddUint64"}, {"cashu", "", "UnderflowSubUint64"},
+				{"cashu", "BlindedMessages", "Amount"}, {"cashu", "BlindedMessages", "AmountChecked"},
+				{"cashu", "BlindedSignatures", "Amount"}, {"cashu", "Proofs", "Amount"},
+				{"cashu", "", "AmountSplit"}, {"cashu", "", "CheckDuplicateBlindedMessages"},
+				{"cashu", "", "Max"}, {"cashu", "", "Count"},
+				{"wallet", "", "feesForProofs"}, {"wallet", "", "feesForCount"},
+				{"mint", "Mint", "TransactionFees"},
+			})
+		if err := os.WriteFile(os.Args[3], []byte(code), 0644); err != nil {
+			fail("write: %v", err)
+		}
+	}
+
 	if outPath == "" {
 		fmt.Print(sb.String())
 		return
